@@ -27,8 +27,10 @@ def run(chk):
     for i in range(n_cases):
         D = r.choice([1, 2, 3, 4])
         # ---------------- whitening
-        N = r.choice([D + 2, D + 5, 3 * D + 7])
+        N = r.choice([D + 1, D + 2, D + 5, 3 * D + 7])      # D + 1 points in general position are a full-rank data set
         X = gen_full_rank(r, N, D)
+        fscale = r.choice([1.0, 1.0, 1e-5, 1e-3, 1e4])       # units of the features (a common factor: the conditioning is unchanged)
+        X = X * fscale
         w = Whitening().fit(X)
         W, mu = np.asarray(w.weights), np.asarray(w.input_subtract)
         Y = np.asarray(w.transform(X))
@@ -70,7 +72,7 @@ def run(chk):
         if K >= 2 and i % 3 == 1:
             per[r.randrange(K)] = 1                       # a class with a single sample: no scatter of its own, but it is a class
         g = gen.nprng(r)
-        Xc = np.vstack([gen_full_rank(r, n, D) + g.normal(size=D) * 3 for n in per])
+        Xc = np.vstack([gen_full_rank(r, n, D) + g.normal(size=D) * 3 for n in per]) * fscale
         base = np.repeat(np.arange(K), per)
         perm = g.permutation(len(base))
         Xc, base = Xc[perm], base[perm]                     # unsorted labels
